@@ -429,7 +429,8 @@ func runC19(r *Run) {
 	}
 	// 5. the download handler with a template: every file is a function of the template and of the
 	// request it answers — what an earlier download wrote must not show up in a later one
-	for ti, tpl := range []string{"domain:s:TEMPLATEDOM\r\naudiomode:i:2\r\nusername:s:from-template\r\n", "audiomode:i:1\r\nalternate shell:s:notepad.exe\r\n", "domain:s:D\r\nfull address:s:template-host:1\r\ngatewayhostname:s:template-gw\r\n"} {
+	for ti, tpl := range []string{"domain:s:TEMPLATEDOM\r\naudiomode:i:2\r\nusername:s:from-template\r\n", "audiomode:i:1\r\nalternate shell:s:notepad.exe\r\n", "domain:s:D\r\nfull address:s:template-host:1\r\ngatewayhostname:s:template-gw\r\n",
+		"alternate shell:s:%windir%\\system32\\notepad.exe\r\nremoteapplicationcmdline:s:%USERPROFILE%\\100%s %d%%\r\naudiomode:i:2\r\n"} {
 		fn := filepath.Join(dir, fmt.Sprintf("dl-template-%d.rdp", ti))
 		os.WriteFile(fn, []byte(tpl), 0o644)
 		gwURL, _ := url.Parse("https://gw.example.com:443/")
@@ -447,13 +448,33 @@ func runC19(r *Run) {
 				h.HandleDownload(rec, req)
 				return fmt.Sprintf("%d %s", rec.Code, rec.Body.String())
 			}
-			seq := []string{"bob", "alice@corp.example", "bob", "carol@other.example", "alice@corp.example", "bob"}
+			seq := []string{"bob", "alice@corp.example", "bob", "carol@other.example", "alice@corp.example", "bob", "100%20sure@corp.example", "bob"}
 			firstOf := map[string]string{}
 			var log []string
 			for k, u := range seq {
 				out := download(u)
 				log = append(log, fmt.Sprintf("download %d by %q: %q", k+1, u, out))
 				r.Count(fmt.Sprintf("dl-history:%d:%v:%d", ti, split, k))
+				// template settings the gateway does not control are kept verbatim, and the user name arrives as it is
+				if strings.HasPrefix(out, "200 ") {
+					body := out[4:]
+					for _, tl := range strings.Split(strings.TrimSuffix(tpl, "\r\n"), "\r\n") {
+						key := strings.SplitN(tl, ":", 2)[0]
+						if key == "username" || key == "domain" || key == "full address" || strings.HasPrefix(key, "gateway") {
+							continue
+						}
+						if !strings.Contains(body, tl+"\r\n") {
+							r.Violation("c19-template-kept", "a template setting that the gateway does not control is not kept as it is in the generated file", fmt.Sprintf("template line %q\nuser %q splituserdomain=%v\nfile: %q\n", tl, u, split, body))
+						}
+					}
+					wantUser := u
+					if split {
+						wantUser = strings.SplitN(u, "@", 2)[0]
+					}
+					if !strings.Contains(body, "username:s:"+wantUser+"\r\n") {
+						r.Violation("c19-template-kept", "a template setting that the gateway does not control is not kept as it is in the generated file", fmt.Sprintf("user name %q (expected line username:s:%s) splituserdomain=%v\nfile: %q\n", u, wantUser, split, body))
+					}
+				}
 				if prev, ok := firstOf[u]; ok && prev != out {
 					r.Violation("c19-template-history", "a connection file depends on earlier downloads: the same user, template and settings give a different file than before", fmt.Sprintf("template: %q splituserdomain=%v\n%s\nfirst file for %q: %q\n", tpl, split, strings.Join(log, "\n"), u, prev))
 					break
